@@ -1,6 +1,6 @@
 """C16 Datetime construction, arithmetic and ISO text are correct in any time zone (DESIGN 4, C16).
 
-Configurations: the eight time zones of the property, switched in-process (os.environ['TZ'] + time.tzset()) by every
+Configurations: the eight time zones of the property (plus three with a negative non-whole-hour offset for the ISO-text families), switched in-process (os.environ['TZ'] + time.tzset()) by every
 shard / every replay before anything else happens. Reference: mc/ref/civil.py (integer days-from-civil arithmetic and
 time.localtime for the zone's offsets). The datetime module is used here only to build host input values (naive
 datetimes with microseconds, dates, aware datetimes) and to read the fields of results for the final comparison.
@@ -15,7 +15,7 @@ from ..engine.shard import Acc, Family, split
 from ..ref import civil
 
 LEVEL = 'model_checking'
-RULE = ('configuration = one of the eight TZ zones; a state is a distinct (zone, input) pair. Families: datetimeNew over the '
+RULE = ('configuration = one of the eight TZ zones (ISO-text families: also America/St_Johns, Pacific/Marquesas, America/Caracas); a state is a distinct (zone, input) pair. Families: datetimeNew over the '
         'grid years x months -30..40 x days (both number spellings) and over B^4 time components on three dates, all seven '
         'getters on every result, compared with integer civil arithmetic; the same through parse_script/execute_script on a '
         'sub-grid; (d+n), (n+d), (d+n)-d, d-(d+n) over instants x millisecond offsets; getters/ISO text of date and aware '
@@ -26,7 +26,7 @@ RULE = ('configuration = one of the eight TZ zones; a state is a distinct (zone,
         'UTC offset; a text that must be, or is, rejected.')
 ASSUMPTIONS = [
     'mc/ref/civil.py (days-from-civil) is the calendar; it is cross-checked against a naive walking inverse in its selftest',
-    'the C library tz database (time.localtime, tm_gmtoff) gives the true offsets of the eight zones; tzdata is installed',
+    'the C library tz database (time.localtime, tm_gmtoff) gives the true offsets of the zones; tzdata is installed',
     'a local time exists once iff exactly one candidate offset (those in force one day before / after) maps back to it',
     'an exception raised by a library function called directly is what the runtime turns into null (runtime.py catches it); '
     'the script-path sub-family and the near-miss family execute the real parse_script/execute_script path as well',
@@ -36,6 +36,20 @@ ASSUMPTIONS = [
 ZONES = ['UTC', 'America/New_York', 'Europe/London', 'Asia/Kolkata', 'Asia/Kathmandu', 'Australia/Lord_Howe', 'Pacific/Chatham',
          'Etc/GMT+12']
 DST_ZONES = ['America/New_York', 'Europe/London', 'Australia/Lord_Howe', 'Pacific/Chatham']   # two transitions a year, 2023-2025
+# "whatever that zone is": none of the eight zones has a NEGATIVE offset with a minutes part, so the families that look at ISO
+# text (iso_years, iso_dst, host_values) also run in these: -03:30 / -02:30 (DST), -09:30, and -04:30 (Caracas 2007-12-09..2016-05-01).
+EXTRA_ZONES = ['America/St_Johns', 'Pacific/Marquesas', 'America/Caracas']
+ISO_EXTRA = {
+    'quick': [('America/St_Johns', [2024]), ('Pacific/Marquesas', [2024]), ('America/Caracas', [2010, 2016])],
+    'thorough': [('America/St_Johns', [1970, 2023, 2024, 2025, 8999]), ('Pacific/Marquesas', [1970, 2024, 8999]),
+                 ('America/Caracas', [2007, 2010, 2016])],
+}
+# (zone, year, number of offset transitions whose local date falls in that year)
+DST_EXTRA = {
+    'quick': [('America/St_Johns', 2024, 2), ('America/Caracas', 2016, 1)],
+    'thorough': [('America/St_Johns', 2023, 2), ('America/St_Johns', 2024, 2), ('America/St_Johns', 2025, 2),
+                 ('America/Caracas', 2007, 1), ('America/Caracas', 2016, 1)],
+}
 GETTERS = ['datetimeYear', 'datetimeMonth', 'datetimeDay', 'datetimeHour', 'datetimeMinute', 'datetimeSecond', 'datetimeMillisecond']
 
 _STATE = {'zone': None}
@@ -280,7 +294,7 @@ DATES = sorted([(1, 1, 1), (100, 1, 1), (100, 12, 31), (1582, 10, 10), (1752, 9,
          (2023, 3, 12), (2023, 12, 31), (2024, 1, 1), (2024, 2, 28), (2024, 2, 29), (2024, 3, 1), (2024, 3, 10), (2024, 3, 31),
          (2024, 4, 7), (2024, 9, 29), (2024, 10, 6), (2024, 10, 27), (2024, 11, 3), (2024, 12, 31), (2025, 1, 1), (2037, 12, 31),
          (2038, 1, 19), (2038, 1, 20), (2100, 2, 28), (2100, 3, 1), (2400, 2, 29), (8999, 12, 31), (9000, 1, 1), (9000, 12, 31),
-         (9999, 12, 31)], key=lambda d: (abs(d[0] - 2024), d))     # nearest to the present first
+         (9999, 12, 31), (2010, 6, 15)], key=lambda d: (abs(d[0] - 2024), d))     # nearest to the present first
 TIMES = [(0, 0, 0, 0), (1, 59, 59, 999), (2, 30, 0, 0), (12, 0, 0, 1), (23, 59, 59, 999)]
 _POS = sorted({1, 999, 1000, 86399999, 86400000} | {10 ** k + e for k in range(13) for e in (-1, 0, 1)} - {0})
 OFFSETS_MS = [0] + [s * p for p in _POS for s in (1, -1)]        # by magnitude
@@ -792,28 +806,34 @@ def families(tier):
                        f'{len(ZONES)} zones x {ninst} instants ({len(DATES)} dates x {len(TIMES)} times) x {len(OFFSETS_MS)} offsets n '
                        '(0, +-{1, 999, 1000, 86399999, 86400000, 10^k, 10^k+-1 for k <= 12}) x float/int spelling, through execute_script',
                        expected=len(ZONES) * ninst * len(OFFSETS_MS) * 2))
-    shards = [(z, ix) for z in ZONES for ix in split(list(range(ninst)), 2)]
+    hzones = ZONES + EXTRA_ZONES
+    shards = [(z, ix) for z in hzones for ix in split(list(range(ninst)), 2)]
     fams.append(Family('host_values', fam_host, shards,
-                       f'{len(ZONES)} zones x {ninst} instants x kinds {KINDS}: getters, ISO date text, ISO text and round trip',
-                       expected=len(ZONES) * ninst * len(KINDS)))
+                       f'{len(ZONES)} zones + {EXTRA_ZONES} x {ninst} instants x kinds {KINDS}: getters, ISO date text, ISO text '
+                       '(local fields, sign/hh/mm of the offset) and round trip',
+                       expected=len(hzones) * ninst * len(KINDS)))
     # (d)
     years = ISO_YEARS_QUICK if quick else ISO_YEARS_THOROUGH
     step = 30 if quick else 15
     full = FULL_VARIANT_YEARS[tier]
-    shards = [(z, y, ms, step, (0, 1, 2, 3, 4) if y in full else (0, 3)) for z in ZONES for y in years
+    zone_years = [(z, y) for z in ZONES for y in years] + [(z, y) for z, ys in ISO_EXTRA[tier] for y in ys]
+    full = sorted(set(full) | ({y for _, ys in ISO_EXTRA[tier] for y in ys} if not quick else set()))
+    shards = [(z, y, ms, step, (0, 1, 2, 3, 4) if y in full else (0, 3)) for z, y in zone_years
               for ms in split(list(range(1, 13)), 4 if y in full else 2)]
-    nvar = sum((366 if civil.is_leap(y) else 365) * (len(VARIANTS) if y in full else 2) for y in years)
+    nvar = sum((366 if civil.is_leap(y) else 365) * (len(VARIANTS) if y in full else 2) for _, y in zone_years)
     fams.append(Family('iso_years', fam_iso_years, shards,
-                       f'{len(ZONES)} zones x every {step}-minute local wall-clock step of the years {years} x sub-second variants '
-                       f'(second, microsecond) {VARIANTS} (all five in {full}, the first and the fourth elsewhere); '
-                       'variant 0 also parses the instant written in UTC and in a foreign offset',
-                       expected=len(ZONES) * nvar * (1440 // step)))
+                       f'({len(ZONES)} zones x years {years} + extra (zone, years) {ISO_EXTRA[tier]}) x every {step}-minute local '
+                       f'wall-clock step x sub-second variants (second, microsecond) {VARIANTS} (all five in {full}, the first and '
+                       'the fourth elsewhere); variant 0 also parses the instant written in UTC and in a foreign offset',
+                       expected=nvar * (1440 // step)))
     dyears = DST_YEARS_QUICK if quick else DST_YEARS_THOROUGH
-    shards = [(z, y, step) for z in DST_ZONES for y in dyears]
+    dst_specs = [(z, y, 2) for z in DST_ZONES for y in dyears] + DST_EXTRA[tier]
+    shards = [(z, y, step) for z, y, _ in dst_specs]
     fams.append(Family('iso_dst', fam_iso_dst, shards,
-                       f'zones {DST_ZONES} x the two offset transitions of {dyears} x every minute of the 48 h around the transition '
-                       f'that is not already on the {step}-minute grid x the same variants (the other four zones have no transition)',
-                       expected=len(DST_ZONES) * len(dyears) * 2 * (2880 - 2880 // step) * len(VARIANTS)))
+                       f'zones {DST_ZONES} x the two offset transitions of {dyears} + extra (zone, year, transitions) {DST_EXTRA[tier]} x '
+                       f'every minute of the 48 h around the transition that is not already on the {step}-minute grid x the same '
+                       'variants (the other four zones have no transition)',
+                       expected=sum(n for _, _, n in dst_specs) * (2880 - 2880 // step) * len(VARIANTS)))
     # (e)
     shards = [(z, g) for z in ZONES for g in range(len(BASES) + 1)]
     fams.append(Family('near_miss', fam_near, shards,
